@@ -1,4 +1,5 @@
 import logging
+from jax.numpy import ndim
 from .base_model import BaseEstimator, DEFAULT_COV_FUNC
 from .inference import (
     compute_conditional,
@@ -149,6 +150,13 @@ class FunctionEstimator(BaseEstimator):
         self.y_is_mean = validate_bool(y_is_mean, "y_is_mean")
         self.mu = validate_float(mu, "mu")
         self.sigma = validate_float_or_iterable_numerical(sigma, "sigma", positive=True)
+        if ndim(self.sigma) > 1:
+            message = (
+                f"sigma has {ndim(self.sigma)} dimensions but must be a number or "
+                "one value per cell."
+            )
+            logger.error(message)
+            raise ValueError(message)
         if (
             self.gp_type == GaussianProcessType.FULL_NYSTROEM
             or self.gp_type == GaussianProcessType.SPARSE_NYSTROEM
